@@ -301,7 +301,8 @@ def serialize_content_range(value):
         else:
             begin, end, length = value
         value = ContentRange(begin, end, length)
-    value = str(value).strip()
+    # only optional white space: CR and LF are left for the header setter to refuse
+    value = str(value).strip(" \t")
     if not value:
         return None
     return value
